@@ -69,12 +69,22 @@ CHECKS = {
          "deterministic simulation: seeded guard/query histories under a strict-wake executor vs counter model",
          "Seeded search over acquire / drop / available(task) / clone histories of the real actix-utils Counter for capacities 0..3 and register / wake / take histories of the real LocalWaker, each compared with a reference model including exact wake counts; sampling, not proof.",
          "Trusts the counter/slot model in the harness; single-threaded use only.", "§6.3"),
+ "C18": ("tlssim", "fault_enumeration",
+         "deterministic simulation with fault injection: in-memory duplex, hand-driven rustls client peer, paused clock; stall / garbage / disconnect / reset at any flight",
+         "Up to 5 concurrent accept calls on the real rustls-0.23 and OpenSSL AcceptorService (from the configured acceptor or its clone, 1..2 services sharing the per-thread limit 1..3) over a simulator-owned duplex; the client is a hand-driven rustls ClientConnection (TLS 1.2/1.3) whose flights are delivered whole, split, byte-wise or never, or replaced by garbage, EOF or reset; the virtual clock is advanced in steps around the 0.1..5 s timeout. Oracles: outcome is a stream, a TLS error (only after a client fault) or Timeout (never before the deadline); no call stays pending and un-woken past its deadline; poll_ready is Pending iff handshakes in progress == limit and the refused task is woken when one ends or is cancelled; payloads up to 64 KiB arrive unchanged both ways, also under transport back-pressure.",
+         "rustls 0.20-0.22 and native-tls acceptors are not exercised; handshake bytes contain fresh randomness, so replay is exact at the level of actions and outcomes.", "§7.1"),
+ "C19": ("tlssim", "fault_enumeration",
+         "deterministic simulation: scripted resolvers, live/closed loopback ports in every combination, TLS peers with right/wrong/untrusted certificates over the in-memory duplex",
+         "Resolution precedence and ordered fallback of the real Connector / Resolver / TcpConnector services over kernel loopback: address lists of length 0..4 (each entry live or a reserved closed port, IPv4/IPv6), host strings with/without port, IP literals, non-numeric port text, pre-set One/Multi addresses, set_port, local bind address, default resolver (localhost) or scripted resolver (list / empty / error after 0..2 Pending polls); outcome, dialled address, accept counters of every listener and the resolver call log are compared with a precedence model. TLS connector services (rustls 0.23, OpenSSL) against a hand-driven rustls server whose certificate covers / does not cover the host, comes from an untrusted CA or lists only an IP: success iff the certificate is valid for hostname(); payload round trip afterwards.",
+         "Connect timing (slow SYN, half-open) cannot be simulated on kernel loopback; other connector versions are not exercised.", "§7.2"),
 }
 ENGINES = [
  {"name": "srvsim", "path": "sim/srvsim", "serves_properties": ["C01", "C02", "C03", "C04", "C05", "C06", "C07", "C08"],
   "kind_free_text": "whole actix-server (real builder, Server future, accept loop, workers, sockets, epoll) stepped on one thread under a seeded scheduler with a paused tokio clock"},
  {"name": "rtsim", "path": "sim/rtsim", "serves_properties": ["C09", "C10"],
   "kind_free_text": "real actix-rt on real OS threads under a baton scheduler (one thread runs at a time; seeded choice at every yield point)"},
+ {"name": "tlssim", "path": "sim/tlssim", "serves_properties": ["C18", "C19"],
+  "kind_free_text": "actix-tls acceptor and connector services over an in-memory duplex with hand-driven rustls peers, paused clock; kernel loopback for the TCP connector"},
  {"name": "svcsim", "path": "sim/pollsim/src/svcsim.rs", "serves_properties": ["C11", "C12"],
   "kind_free_text": "strict-wake poll-level simulator for actix-service combinator trees with a tree interpreter as reference"},
  {"name": "iosim", "path": "sim/pollsim/src/iosim.rs", "serves_properties": ["C13", "C14"],
